@@ -1,7 +1,7 @@
 #!/venv/bin/python
 """Run every registered quick check against a seeded change.
 
-usage: tools/run_seeded.py <patch.diff> [--json out.json] [--in-place]
+usage: tools/run_seeded.py <patch.diff> [--json out.json] [--in-place] [--base <commit>] [--nopatch]
 
 Applies the patch to a scratch copy of /repo's tracked loky/ tree (or, with --in-place, to /repo
 itself: git apply, and ALWAYS git checkout -- . afterwards), runs every registered quick check
@@ -33,11 +33,16 @@ def main():
         else:
             tree = os.path.join(scratch, "tree")
             os.makedirs(tree)
-            subprocess.run(f"git -C {REPO} ls-files -z -- loky | (cd {REPO} && xargs -0 tar -cf - ) | tar -xf - -C {tree}", shell=True, check=True)
+            base = sys.argv[sys.argv.index("--base") + 1] if "--base" in sys.argv else None
+            if base:
+                # an older commit of /repo (a patch written before later fix: commits touched the same lines)
+                subprocess.run(f"git -C {REPO} archive {base} loky | tar -xf - -C {tree}", shell=True, check=True)
+            else:
+                subprocess.run(f"git -C {REPO} ls-files -z -- loky | (cd {REPO} && xargs -0 tar -cf - ) | tar -xf - -C {tree}", shell=True, check=True)
             subprocess.run(["git", "init", "-q", tree], check=True)
         # a seed made against an older commit of /repo may need reduced context (the fix: commits moved lines)
         for extra in ([], ["-C1"]):
-            if subprocess.run(["git", "-C", tree, "apply"] + extra + [patch], capture_output=True).returncode == 0:
+            if "--nopatch" in sys.argv or subprocess.run(["git", "-C", tree, "apply"] + extra + [patch], capture_output=True).returncode == 0:
                 break
         else:
             raise SystemExit(f"patch does not apply: {patch}")
